@@ -78,7 +78,9 @@ MIDNIGHTS = [('America/Havana', (2021, 11, 7, 0, 30, 0)), ('America/Havana', (20
              ('Asia/Beirut', (2021, 3, 28, 12, 0, 0))]
 
 
-SWITCH_ZONES = ['Australia/Lord_Howe', 'America/St_Johns', 'Australia/Adelaide', 'Europe/Berlin', 'Asia/Kathmandu', 'America/Havana']
+SWITCH_ZONES = ['Australia/Lord_Howe', 'America/St_Johns', 'Australia/Adelaide', 'Europe/Berlin', 'Asia/Kathmandu', 'America/Havana',
+                # zones and years in which the change came at a minute that is no multiple of 30 minutes of UTC
+                'America/St_Johns@2006', 'America/Goose_Bay@2006', 'Australia/Eucla@2008']
 
 
 def transitions(zone, year=2021):
@@ -88,7 +90,10 @@ def transitions(zone, year=2021):
     for t in range(t0, t0 + 366 * 86400, 900):
         off = dt.datetime.fromtimestamp(t, z).utcoffset()
         if off != prev:
-            out.append(t)
+            lo = t - 900        # the exact second of the change
+            while lo + 1 < t and dt.datetime.fromtimestamp(lo + 1, z).utcoffset() == prev:
+                lo += 1
+            out.append(lo + 1)
             prev = off
     return out
 
@@ -368,8 +373,11 @@ def eval_group(env, group, tier):
             env.rmtree(root)
     elif kind == 'switch':
         zone, rd = group['zone'], group['rd']
+        year = 2021
+        if '@' in zone:
+            zone, year = zone.split('@')[0], int(zone.split('@')[1])
         stamps = {}
-        for k, t in enumerate(transitions(zone) or [1616893200]):
+        for k, t in enumerate(transitions(zone, year) or [1616893200]):
             for j, d in enumerate((-2700, -900, -1, 0, 900, 2700, 1799, -1801)):
                 stamps['w%d%d' % (k, j)] = t + d
         stamps['far'] = 1600000000
@@ -380,7 +388,7 @@ def eval_group(env, group, tier):
             o = env.run(['name, modified, accessed from . into list'], cwd=root, env={'TZ': zone, 'FSX_READDIR': rd}, preload=True)
             rows = o.rows(3) or []
             exp = sorted((n, x, x) for n, x in texts.items())
-            r = {'case': {'kind': 'switch', 'zone': zone, 'rd': rd}, 'nt': True, 'layer': 'offset-change', 'trans': len(stamps)}
+            r = {'case': {'kind': 'switch', 'zone': group['zone'], 'rd': rd}, 'nt': True, 'layer': 'offset-change', 'trans': len(stamps)}
             if o.rc != 0 or sorted(map(tuple, rows)) != exp:
                 bad = [(g, e) for g, e in zip(sorted(map(tuple, rows)), exp) if tuple(g) != e][:4]
                 r.update(status='viol', cls='modified-text-at-offset-change', detail={'zone': zone, 'diff': bad, 'err': o.brief()['err'], 'rd': rd}, sig=('switch',))
